@@ -1457,3 +1457,22 @@ example : validate c08Rules CapstoneWitness.schema CapstoneWitness.docW ≠ .ok 
 #print axioms C08_rules_are_default_rules
 #print axioms C08_default_rules_iff_spec_partial
 end C08
+
+/- axioms of the first-group theorems and of the remaining new ones -/
+#print axioms C08_FieldsOnCorrectType
+#print axioms C08_FragmentsOnCompositeTypes
+#print axioms C08_KnownArgumentNames
+#print axioms C08_KnownDirectives
+#print axioms C08_KnownFragmentNames
+#print axioms C08_LoneAnonymousOperation
+#print axioms C08_PossibleFragmentSpreads_loaded
+#print axioms C08_ProvidedRequiredArguments
+#print axioms C08_ScalarLeafs
+#print axioms C08_UniqueArgumentNames
+#print axioms C08_UniqueDirectivesPerLocation
+#print axioms C08_UniqueDirectivesPerLocation_complete
+#print axioms C08_UniqueFragmentNames
+#print axioms C08_UniqueOperationNames
+#print axioms C08_UniqueOperationNames_iff
+#print axioms C08_UniqueVariableNames
+#print axioms C08_default_LoneAnonymousOperation
